@@ -65,7 +65,7 @@ def showSh : Sh → String
   | .none => "none" | .asap => "asap" | .later _ => "later"
 
 def showCS (res : String) (c : CS) : String :=
-  s!"{res} sh={showSh c.sh} ni={c.negInW + c.negInR} no={c.negOutW + c.negOutR} rq={c.req} act={if c.negOutW + c.negOutR + c.negInW + c.negInR + c.held == 0 then 0 else 1}"
+  s!"{res} sh={showSh c.sh} ni={c.negInW + c.negInR} no={c.negOutW + c.negOutR} rq={c.req} act={if c.negOutW + c.negOutR + c.negInW + c.negInR + c.held == 0 then 0 else 1} held={c.held}"
 
 def isE2E (args : List String) : Bool :=
   match args with
@@ -93,14 +93,14 @@ def monStep (m : Mon) (args outs : List String) : Mon × String :=
   match args with
   | ["new", t, _] =>
     match parseTimeout t with
-    | some t => ({ timeout := t, gone := false }, if outs == ["-", "sh=none", "ni=0", "no=0", "rq=0", "act=0"] then "ok" else "FAIL:fresh_connection")
+    | some t => ({ timeout := t, gone := false }, if outs == ["-", "sh=none", "ni=0", "no=0", "rq=0", "act=0", "held=0"] then "ok" else "FAIL:fresh_connection")
     | none => (m, "FAIL:unparsable")
   | _ =>
     if m.gone then (m, if outs == ["gone"] then "ok" else "FAIL:unparsable") else
     match parseCOp args, outs with
-    | some o, [res, _sh, ni, no, rq, act] =>
-      match field "ni" ni, field "no" no, field "rq" rq, field "act" act with
-      | some ni, some no, some rq, some act =>
+    | some o, [res, _sh, ni, no, rq, act, held] =>
+      match field "ni" ni, field "no" no, field "rq" rq, field "act" act, field "held" held with
+      | some ni, some no, some rq, some act, some held =>
         let m1 : Mon := match o with
           | .ka b => { m with ka := b }
           | .req => { m with hq := m.hq + 1 }
@@ -109,17 +109,19 @@ def monStep (m : Mon) (args outs : List String) : Mon × String :=
         let isPoll := match o with | .poll => true | _ => false
         let closed := res == "closed"
         let verdict :=
-          if !isPoll then (if res == "-" then "ok" else "FAIL:unparsable")
+          if 0 < ni + no + held && act == 0 then "FAIL:active_stream_not_counted"
+          else if !isPoll then (if res == "-" then "ok" else "FAIL:unparsable")
           else if !(res == "pending" || res == "closed") then "FAIL:unexpected_poll_result"
           else if closed && (m1.busyObs || 0 < m1.hq || m1.ka) then "FAIL:closed_while_kept_alive"
           else if !specClose m1.timeout (m1.busyObs || 0 < m1.hq) m1.ka m1.lastBusy m1.now closed then "FAIL:closed_before_timeout"
           else "ok"
-        let busy' := 0 < ni + no + rq + act
+        -- the ghost sees the streams the handler really holds, not the connection's own counter
+        let busy' := 0 < ni + no + rq + held
         let hq' := if isPoll then 0 else m1.hq
         let lb := if busy' || 0 < hq' || (isPoll && m1.ka) then m1.now else m1.lastBusy
         let m2 : Mon := { m1 with hq := hq', busyObs := busy', gone := closed, lastBusy := lb }
         (m2, verdict)
-      | _, _, _, _ => (m, "FAIL:unparsable")
+      | _, _, _, _, _ => (m, "FAIL:unparsable")
     | _, _ => (m, "FAIL:unparsable")
 
 def modelStep (st : Option CS) (args : List String) : Option CS × String :=
